@@ -28,7 +28,14 @@ SHAPES = {
 QUICK_SHAPES = ['line4', 'grid3x2', 'gen3x2x2', 'gen3x0x2', 'gen0x2x0', 'gen2x2x2']
 KINDS = ['callable', 'list', 'ndarray', 'constant', 'lookup_rank', 'lookup_np_rank', 'lookup_3d', 'constant_tuple',
          'constant_list', 'callable_mixed', 'lookup_3d_reused', 'constant_subclass', 'callable_shift',
-         'lookup_3d_tuples', 'lookup_3d_mixed', 'lookup_3d_reassigned', 'callable_mapping']
+         'lookup_3d_tuples', 'lookup_3d_mixed', 'lookup_3d_reassigned', 'callable_mapping', 'lookup_3d_caller_edit']
+
+
+class Either:
+    """Two admissible contents of a component (decided by what the component shows, all cells alike)."""
+
+    def __init__(self, *alts):
+        self.alts = alts
 
 
 class PosConstant(Envs.ConstantGenerator):
@@ -156,6 +163,18 @@ class Harness:
                 def __call__(self_, pos, cells):
                     return f(ki, pos)
             return Memo({(0, 0, 0): 'raw entry', 'size': -1}), vals, None
+        if kind == 'lookup_3d_caller_edit':
+            # the caller builds the generator from a nested list and goes on editing that list before the generator is
+            # used: one entry of the first slab is changed in place, the last slab is replaced by a new one.  The
+            # component shows the table as it is now or (a generator that took a copy) as it was then - for EVERY cell
+            # alike (decided in apply)
+            tbl = [[[f(ki, (x, y, z)) for z in range(ex[2])] for y in range(ex[1])] for x in range(ex[0])]
+            gen = Envs.LookupGenerator(tbl)
+            then = list(vals)
+            tbl[0][0][0] += 31
+            tbl[-1] = [[v + 77000 for v in zs] for zs in tbl[-1]]
+            now = [tbl[p[0]][p[1]][p[2]] for p in self.table]
+            return gen, Either(now, then), None
         if kind == 'lookup_3d_reassigned':
             # ONE generator object per world whose public `table` attribute is REPLACED by a new array before every
             # further use
@@ -211,6 +230,13 @@ class Harness:
                     w.last = ('add', kind, 'F4')
                     return
                 raise
+            if isinstance(vals, Either):
+                got = [_py(v) for v in world.cells[name]]
+                match = [a for a in vals.alts if a == got]
+                if not match:
+                    raise Violation(f'component {name!r} (source {kind}) holds neither the caller\'s table as it is now nor '
+                                    f'as it was when the generator was built', expected=list(vals.alts), observed=got)
+                vals = match[0]
             w.cols[name] = (kind, vals)
             if buf is not None:
                 w.bufs[name] = buf
@@ -285,7 +311,7 @@ class ReplaceHarness(Harness):
     from a generator of the coordinates, and from a generator that reads the other component through the `cells`
     argument it is handed: it sees the other component as it is at that moment."""
 
-    SET_KINDS = ['list_a', 'list_b', 'callable', 'reads']
+    SET_KINDS = ['list_a', 'list_b', 'callable', 'reads', 'consumes']
 
     def __init__(self, shape):
         super().__init__(shape, ['p', 'q'], ['callable'])
@@ -296,8 +322,10 @@ class ReplaceHarness(Harness):
         for n in self.names:
             other = 'q' if n == 'p' else 'p'
             for k in self.SET_KINDS:
-                if k == 'reads' and other in w.cols and w.cols[other][0] == 'reads':
+                if k in ('reads', 'consumes') and other in w.cols and w.cols[other][0] in ('reads', 'consumes'):
                     continue          # keeps the values (and so the state space) finite
+                if k == 'consumes' and other not in w.cols:
+                    continue
                 ops.append(['set', n, k])
         ops += [['remove', n] for n in self.names if n in w.cols]
         return ops
@@ -318,13 +346,19 @@ class ReplaceHarness(Harness):
             vals = [src(p, None) for p in self.table]
         else:
             table = self.table
+            world = w.world
 
             def src(pos, cells):
                 i = table.index(tuple(int(v) for v in pos))
-                return ('saw', _py(cells[other][i]) if other in cells.columns else None)
+                out = ('saw', _py(cells[other][i]) if other in cells.columns else None)
+                if kind == 'consumes' and i == len(table) - 1:
+                    world.remove_cell_component(other)      # a helper component, dropped once its last cell was read
+                return out
             base = w.cols[other][1] if other in w.cols else [None] * n
             vals = [('saw', b) for b in base]
         w.world.add_cell_component(name, src)
+        if kind == 'consumes':
+            del w.cols[other]
         w.cols[name] = (kind, vals)
         w.last = ('set', kind, name in w.cols)
 
